@@ -269,6 +269,16 @@ def representative_events():
     return ev
 
 
+def walk_alphabet(which):
+    """'full': the whole quick alphabet.  'representative': the sixty representative events plus
+    every calculator, import, init and reinit event (used by the fine-abstraction walk)."""
+    full = alphabet('quick')
+    if which == 'full':
+        return full
+    keep = set(representative_events()) | {e for e in full if event_kind(e) not in BATCHABLE}
+    return [e for e in full if e in keep]
+
+
 def event_kind(name):
     return name.split(':')[0]
 
